@@ -6,7 +6,7 @@ func init() {
 	register(&Def{
 		ID:          "C01",
 		Technique:   "dominance/exclusivity rules over the dispatch closure, goroutine join accounting, field-level provenance in the response builder, predicate extraction (skip, count, bare-object), lockset of sends",
-		Explanation: "Decides: (D1) each handler invocation site is reached only for tasks with err == nil, the sites are mutually exclusive within one iteration, and the counter that selects the inline site counts exactly err == nil; (D2) each site reads ctx/handler/request from and writes result/error to one and the same task; (D3) every goroutine that runs a handler is joined by the WaitGroup waited on before the single delivery call, which dominates every return; (D4) the response builder appends once per iteration a fresh message whose id, batch flag, result and error come from the iteration's own task, and bypasses the append exactly when id is absent ∧ code ∉ {ParseError, InvalidRequest}; (D5) nothing is encoded for an empty list and the bare-object form is chosen exactly for len == 1 ∧ ¬batch; (D6) all sends are serialised (C10-D1); (D7) a handler's error is returned only for non-notifications. (D8) the count of runnable tasks is decremented in the task loop only on the err == nil edge of the task at hand (it agrees with what the counting function counts).",
+		Explanation: "Decides: (D1) each handler invocation site is reached only for tasks with err == nil, the sites are mutually exclusive within one iteration, and the counter that selects the inline site counts exactly err == nil; (D2) each site reads ctx/handler/request from and writes result/error to one and the same task; (D3) every goroutine that runs a handler is joined by the WaitGroup waited on before the single delivery call, which dominates every return; (D4) the response builder appends once per iteration a fresh message whose id, batch flag, result and error come from the iteration's own task, and bypasses the append exactly when id is absent ∧ code ∉ {ParseError, InvalidRequest}; (D5) nothing is encoded for an empty list and the bare-object form is chosen exactly for len == 1 ∧ ¬batch; (D6) all sends are serialised (C10-D1); (D7) a handler's error is returned only for non-notifications. (D8) the count of runnable tasks is decremented in the task loop only on the err == nil edge of the task at hand (it agrees with what the counting function counts). (D9) the runnable count is never compared with a task's position in the batch; no list of batch members is sorted or reversed; foreign (non-encoder) bytes never reach Send.",
 		NotDecided:  []string{"that the wire shows the handler's outcome for every value (parts in C13/C14)", "behaviour when a handler panics or returns an *Error whose Data is not JSON (assumption A-data)", "liveness"},
 		Assumptions: []string{"A-data: a handler-supplied *Error carries valid JSON data", "sync.WaitGroup semantics"},
 		RuleText:    ruleText,
@@ -19,6 +19,8 @@ func init() {
 			ruleInvokeSites(c, d)
 			ruleNumToDo(c, d)
 			ruleCountdownAgrees(c, d)
+			ruleInlineDecisionNotByIndex(c, d)
+			ruleNoReorderingOfMessages(c)
 			c.Clause("C01-D3")
 			ruleDeliverAfterJoin(c, d)
 			c.Clause("C01-D4")
@@ -60,7 +62,7 @@ func init() {
 	register(&Def{
 		ID:          "C06",
 		Technique:   "who-may-call inventory of Handler-typed calls, dominance by the Acquire success edge, acquire/release pairing by path query, provenance of the semaphore size",
-		Explanation: "Decides: (D1) server-side code calls a Handler value at exactly one site, dominated by the err == nil edge of Acquire on the server's semaphore (built-in handlers are returned as Handler values and take the same path); (D2) every Release is in the acquiring function's own control flow with the acquire's weight, every path from a successful Acquire to the function's exit releases, and no Release precedes the handler call; (D3) the semaphore size is the options accessor's result, which is NumCPU() or the option on its ≥ 1 edge, without arithmetic; (D4) on Acquire's error edge the handler is unreachable. (D5) between obtaining a slot and calling the handler nothing takes the server lock.",
+		Explanation: "Decides: (D1) server-side code calls a Handler value at exactly one site, dominated by the err == nil edge of Acquire on the server's semaphore (built-in handlers are returned as Handler values and take the same path); (D2) every Release is in the acquiring function's own control flow with the acquire's weight, every path from a successful Acquire to the function's exit releases, and no Release precedes the handler call; (D3) the semaphore size is the options accessor's result, which is NumCPU() or the option on its ≥ 1 edge, without arithmetic; (D4) on Acquire's error edge the handler is unreachable. (D5) between obtaining a slot and calling the handler nothing takes the server lock. (D6) on the failure edge of the slot wait the invoke function returns Acquire's own error.",
 		NotDecided:  []string{"work conservation (semaphore.Weighted's contract)", "that a cancelled waiter's error is reported as a cancellation error (C14)"},
 		Assumptions: []string{"golang.org/x/sync/semaphore.Weighted semantics"},
 		RuleText:    ruleText,
@@ -72,6 +74,7 @@ func init() {
 			c.Clause("C06")
 			ruleNoWaitInDispatchLoop(c, d)
 			ruleSemaphore(c, d)
+			ruleSlotWaitErrorReturnedAsIs(c, d)
 			ruleNoLockBeforeHandler(c, d)
 			ruleBuiltinThroughInvoke(c)
 		},
@@ -79,7 +82,7 @@ func init() {
 	register(&Def{
 		ID:          "C07",
 		Technique:   "writer/deleter inventory of the in-flight table with call-graph reachability, lock discipline on the table, dominance of the reservation by validation, extracted 'not executed' predicate vs. reservation post-condition, loop-exit analysis of the release loop",
-		Explanation: "Decides: (D1) ids are reserved at one site, in the context-attach function, and the table is accessed only under the server lock; (D2) the reservation is reached only on the err == nil edge of the same task, a hit in the table fails the task, and all lookups of a batch precede its first reservation; (D3) the predicate under which a response is marked 'not executed' (task.X == nil) is implied false by a reservation (X set non-nil before reserving), the delivery-time release is governed exactly by that mark, and the release loop has no early exit; (D4) ids are deleted only on the way through the delivery function or the stop function (never from CancelRequest). (D5) each reservation stores the cancel function of a context.WithCancel executed for that reservation, and CancelRequest looks up exactly the id it was given.",
+		Explanation: "Decides: (D1) ids are reserved at one site, in the context-attach function, and the table is accessed only under the server lock; (D2) the reservation is reached only on the err == nil edge of the same task, a hit in the table fails the task, and all lookups of a batch precede its first reservation; (D3) the predicate under which a response is marked 'not executed' (task.X == nil) is implied false by a reservation (X set non-nil before reserving), the delivery-time release is governed exactly by that mark, and the release loop has no early exit; (D4) ids are deleted only on the way through the delivery function or the stop function (never from CancelRequest). (D5) each reservation stores the cancel function of a context.WithCancel executed for that reservation, and CancelRequest looks up exactly the id it was given. (D6) the in-batch duplicate table is consulted and updated whatever the member's validity; option accessors do not call the user's NewContext themselves.",
 		NotDecided:  []string{"the history-level statement in full", "that the key passed to the reservation equals the id looked up (lock-step slices)"},
 		Assumptions: []string{"context.WithCancel/WithValue return non-nil contexts"},
 		RuleText:    ruleText,
@@ -94,6 +97,8 @@ func init() {
 			ruleUsedTable(c, d)
 			ruleNullIsAbsent(c, d)
 			ruleFreshCancelPerReservation(c, d)
+			ruleDuplicateCheckForAllMembers(c, d)
+			ruleAccessorsDoNotCallBack(c, "TABLE.default", c.M.Pkg)
 			ruleCancelExactID(c)
 		},
 	})
